@@ -37,6 +37,9 @@ EIGHTH ROUND NOTE: a great many attempts have been made already. Assume a thorou
     9: """
 NINTH ROUND NOTE: a great many attempts have been made already (direct slips, caches, thresholds, Unicode classes, read-buffer boundaries, sequences, provenance of values, secondary clauses, rarely driven entry points incl. the WASM bindings source and the interactive mode on a terminal). Assume a very thorough suite. What is still most likely open is the class of REFACTORINGS THAT LOOK LIKE NO-OPS: replacing a piece of code by a library call or idiom that is equivalent except at an edge. Examples of the kind (do not feel bound to them): `%` vs `rem_euclid`; `sort_by` vs `sort_unstable_by` (stability); `partial_cmp().unwrap_or(Equal)` vs `total_cmp`; `f64::max/min` (NaN-ignoring) vs a comparison chain; `a * b + c` vs `mul_add`; `powi` vs `powf`; `round` vs `round_ties_even`; `as i64` / `as usize` / `as u32` conversions that saturate or truncate; `trim` vs `trim_matches(' ')`; `to_lowercase` vs `to_ascii_lowercase`; `chars().count()` vs `len()`; `split_whitespace` vs `split(' ')`; `lines()` vs `split('\\n')`; `==` on f64 vs on bits; `IndexMap::remove` (swap_remove) vs `shift_remove`; `extend` vs `insert` precedence for duplicate keys; `Rc::ptr_eq` shortcuts before a structural comparison; `iter().rev()` on chars vs on bytes; `HashMap` vs `IndexMap` iteration order; collecting into a `BTreeMap` (sorted) where insertion order mattered; `clone()` of an `Rc` vs of the value behind it; short-circuit `&&`/`||` that skips a needed side effect or error; hoisting a check out of a loop so that it no longer runs for an empty collection; merging two match arms that differ only for one variant. Read the anchored code, list in notes.md at least five such candidate rewrites with the exact edge at which each differs, and pick the one whose edge is the hardest to hit by systematic exploration of small and medium inputs but still within the quantified space of the property. The diff must read like a clean-up.
 """,
+    10: """
+TENTH ROUND NOTE: a great many attempts have been made already (direct slips, caches, thresholds, Unicode classes, sequences, provenance of values, secondary clauses, rarely driven entry points, refactorings that look like no-ops). Assume a very thorough suite. This round asks for a change made of TWO COOPERATING SITES, each of which looks fine (and IS harmless) on its own: for example, a helper gains a parameter / a slightly different contract and one of its several callers is not updated the right way; a normalisation or check is moved from a producer to its consumers and one consumer is missed; a value is now cached / interned / shared in one place and mutated or compared by identity in another; one site starts to produce a representation (an empty collection, a -0, a NaN, a borrowed vs owned string, a pre-sorted list, an absent vs null field) that a second, distant site handles differently from the old one; an error is now constructed early at one site and swallowed or re-labelled at another. The property must hold with either half applied alone and break only with both, and the breakage must need a specific input shape that involves BOTH sites (say exactly which). Read the anchored code, list in notes.md at least four candidate pairs of sites, and pick the pair whose joint trigger is hardest to hit by systematic exploration but still within the quantified space of the property. The diff must read like a reasonable refactoring.
+""",
 }
 text = f"""You are helping to evaluate how well a verification suite detects regressions in the open-source project paul-russo/blots-lang (Blots: a small expression-oriented language written in Rust: pest grammar, tree-walking evaluator, formatter, CLI, WASM bindings).
 
